@@ -1,5 +1,5 @@
 """C03 - see DESIGN.md section 6/C03.  Parts: KernelImpl.tla (TLC) + kernel/subject traces vs Contract.tla (C03 clauses)."""
-import vlib, parts_kernel, parts_multi, parts_subject, parts_pipeline as pp, common
+import vlib, parts_kernel, parts_multi, parts_share, parts_subject, parts_pipeline as pp, common
 
 PID = 'C03'
 
@@ -16,6 +16,8 @@ def main(argv):
     pp.run(rep, PID, common.pipeline_cfgs(rep, 'cuts'))
     # subjects: an observer that left (unsubscribed before, during or after Subscribe, or terminated) is no longer held by the subject (getters after every operation)
     parts_subject.run_seq(rep, PID, thorough)
+    # Share / connectables: once the last subscriber has left (or the connection was cut) no upstream subscription is left alive - every operation sequence
+    parts_share.run_seq(rep, PID, thorough)
     # multi-source operators: every input released exactly once, also when one input's teardown panics
     parts_multi.run(rep, PID, thorough)
     parts_multi.run_ho(rep, PID, thorough)
@@ -32,6 +34,8 @@ def replay(path):
     if path.endswith('.ndjson'):
         return parts_kernel.replay_trace(PID, path)
     import json
+    if json.load(open(path))['replay'].get('module') in ('ShareGen', 'ConnGen'):
+        return parts_share.replay_case(PID, path)
     if json.load(open(path))['replay'].get('module') == 'SubjectGen':
         return parts_subject.replay_case(PID, path)
     if json.load(open(path))['replay'].get('module') in ('MultiGen', 'HOGen', 'MultiOddGen'):
